@@ -69,8 +69,8 @@ def format_code(text, filename):
                 f"""\
 [b]The format_command '{escape(format_command)}' caused the following error:[/b]
 """
-                + result.stdout.decode("utf-8")
-                + result.stderr.decode("utf-8")
+                + escape(result.stdout.decode("utf-8"))
+                + escape(result.stderr.decode("utf-8"))
             )
             return text
 
